@@ -160,6 +160,23 @@ func init() {
 		}
 		return Str{c: sb.String()}
 	})
+	reg(v+"Go", func(in *Interp, caller *frame, _ *ssa.Function, a []Value) (Value, bool) {
+		if in.sched != nil {
+			in.sched.spawn(a[0], nil)
+			in.sched.point()
+		} else {
+			in.ex.pending = append(in.ex.pending, pendingGo{a[0], nil})
+		}
+		return nil, true
+	})
+	regSimple(v+"Join", func(in *Interp, a []Value) Value {
+		if in.sched != nil {
+			in.sched.join()
+		} else {
+			in.runPending()
+		}
+		return nil
+	})
 	regSimple(v+"FSRoot", func(in *Interp, a []Value) Value { in.memfs(); return Str{c: "/memfs"} })
 	regSimple(v+"Concrete", func(in *Interp, a []Value) Value {
 		return in.tb.Int(TI64, in.concretize(a[0].(*Term), "Concrete()"))
